@@ -133,7 +133,21 @@ def OPS():
                                  lambda a, f=k: getattr(nbm, "group_" + f)(a["codes"], a["values"], 3, a["mask"]))
         t["numba.group_" + k + "_T2"] = (("codes", "values"),
                                          lambda a, f=k: getattr(nbm, "group_" + f)(a["codes"], a["values"], 3, None, 2))
+        # the other mask kinds as fixed arguments (a slice is applied to keys and values before anything
+        # else happens), and boolean masks on the multi-block path (converted to positions before the split)
+        t["numba.group_" + k + "@slice"] = (("codes", "values"),
+                                            lambda a, f=k: getattr(nbm, "group_" + f)(a["codes"], a["values"], 3, slice(0, 2)))
+        t["numba.group_" + k + "@pos"] = (("codes", "values"),
+                                          lambda a, f=k: getattr(nbm, "group_" + f)(a["codes"], a["values"], 3, np.array([0, 2])))
+        for T in (2, 3):
+            t[f"numba.group_{k}_T{T}_mask"] = (("codes", "values", "mask"),
+                                               lambda a, f=k, T=T: getattr(nbm, "group_" + f)(a["codes"], a["values"], 3, a["mask"], T))
     t["numba.group_size"] = (("codes", "mask"), lambda a: nbm.group_size(a["codes"], 3, a["mask"]))
+    t["numba.group_size_T2"] = (("codes", "mask"), lambda a: nbm.group_size(a["codes"], 3, a["mask"], 2))
+    for name in ("sum", "first", "count"):
+        t[name + "@slice"] = (("keys", "values"), lambda a, f=name: getattr(G(a), f)(a["values"], mask=slice(1, None)))
+        t[name + "@pos"] = (("keys", "values"), lambda a, f=name: getattr(G(a), f)(a["values"], mask=np.array([0, 2])))
+    # (row-aligned operations document boolean masks only: no slice / position cells for them)
     for k in ("cumsum", "cummin", "cummax"):
         t["numba." + k] = (("codes", "values", "mask"), lambda a, f=k: getattr(nbm, f)(a["codes"], a["values"], 3, a["mask"]))
     for k in ("rolling_sum", "rolling_mean", "rolling_min", "rolling_max"):
@@ -153,6 +167,19 @@ def OPS():
         return getattr(gb, how)()
     t["facade.series.sum"] = (("keys", "values"), lambda a: facade_series(a, "sum"))
     t["facade.series.cumsum"] = (("keys", "values"), lambda a: facade_series(a, "cumsum"))
+    # methods that never look at the values: the grouped object is still their values input
+    t["facade.series.size"] = (("keys", "values"), lambda a: facade_series(a, "size"))
+    t["facade.series.cumcount"] = (("keys", "values"), lambda a: facade_series(a, "cumcount"))
+
+    def facade_frame(a, how):
+        from groupby_lib.groupby.monkey_patch import install_groupby_fast
+        install_groupby_fast()
+        v = a["values"]
+        df = pd.DataFrame({"x": v, "y": np.asarray(v)}) if isinstance(v, pd.Series) else \
+            pd.DataFrame({"x": v, "y": v})
+        return getattr(df.groupby_fast(a["keys"]), how)()
+    for how in ("sum", "size", "cumcount", "cumsum"):
+        t["facade.frame." + how] = (("keys", "values"), lambda a, h=how: facade_frame(a, h))
     return t
 
 
